@@ -30,7 +30,7 @@ def _children(rec, i):
     return [j + 1 for j, n in enumerate(rec["nodes"]) if n[0] == i]
 
 
-def sig_ref_range_includes_type_arguments(rec, fail):
+def _ref_is_annotation_with_type_arguments(rec, fail):
     """NameSpellsItself on a find-references result that is exactly the range of an identifier annotation
     `Name<...>` whose identifier is the queried name."""
     if fail[0] != "NameSpellsItself" or fail[1] != "svc":
@@ -45,6 +45,30 @@ def sig_ref_range_includes_type_arguments(rec, fail):
             if any(k[5] == "targs" for k in kids) and any(k[5] == "id" and k[6] == row[6] for k in kids):
                 return True
     return False
+
+
+def _query_site(rec, fail):
+    """kind of the parent of the name the query position lies in (which search the services used)"""
+    row = rec["svc"][fail[2] - 1]
+    if len(row) < 8:
+        return None
+    l, c = row[7]
+    for n in rec["nodes"]:
+        if n[5] == "id" and n[1] == l == n[3] and n[2] <= c <= n[4] and n[6] == row[6] and n[0]:
+            return rec["nodes"][n[0] - 1][5]
+    return None
+
+
+def sig_ref_range_includes_type_arguments(rec, fail):
+    """... when the references come from the global search (query on a class declaration's name or on a
+    class name used as an expression)"""
+    return _ref_is_annotation_with_type_arguments(rec, fail) and _query_site(rec, fail) in ("class", "interface", "classid")
+
+
+def sig_local_ref_range_includes_type_arguments(rec, fail):
+    """... when the references come from the definition/use map of the module (query on a type annotation,
+    an extends/implements node or a bound)"""
+    return _ref_is_annotation_with_type_arguments(rec, fail) and _query_site(rec, fail) in ("idannot", "tparam", "extends")
 
 
 def sig_module_name_range_includes_comment(rec, fail):
@@ -72,6 +96,7 @@ def sig_module_name_range_includes_comment(rec, fail):
 
 SIGNATURES = {
     "ref-range-includes-type-arguments": sig_ref_range_includes_type_arguments,
+    "local-ref-range-includes-type-arguments": sig_local_ref_range_includes_type_arguments,
     "module-name-range-includes-comment": sig_module_name_range_includes_comment,
 }
 
@@ -221,7 +246,7 @@ def run(tier):
         os.remove(old)
     inputs = os.path.join(d, "inputs.ndjson")
     if tier == "quick":
-        gen_args = ["--layouts", 2, "--generated", 24, "--variants", 24, "--max-bytes", 9000]
+        gen_args = ["--layouts", 3, "--generated", 30, "--variants", 30, "--max-bytes", 20000]
         run_args = ["--max-positions", 50, "--completion-every", 12, "--chunk", 30]
         par = 8
     else:
